@@ -1,9 +1,12 @@
 (* C01 — the two propagation walks as they are used: all local equations hold except possibly
    at the start quota, whose aggregates move by the delta without clamping. *)
 From Coq Require Import List ZArith Bool Lia.
-From Verif Require Import Lib.Vec2 C01.Model C01.Spec C01.Proofs_Base C01.Proofs_Walk.
+From Verif Require Import Lib.VecN C01.Model C01.Spec C01.Proofs_Base C01.Proofs_Walk.
 Import ListNotations.
 Open Scope Z_scope.
+
+Section WithDim.
+Context {D : Dim}.
 
 Lemma walk_req_self sh l : forall R d dnp self m,
   (self = false \/ match l with [] => True | n :: _ => m <> n end) ->
@@ -199,3 +202,5 @@ Section DeltaInd.
     - intros m Hm. apply walk_used_frame. exact Hm.
   Qed.
 End DeltaInd.
+
+End WithDim.
